@@ -3,7 +3,7 @@ import os
 import re
 
 from ..authz import GuardAnalysis
-from ..callgraph import explore, storage_effects, message_effects, call_sites
+from ..callgraph import site_guarded, explore, storage_effects, message_effects, call_sites
 from ..expr import show, find, DEFAULT
 from ..ledger import ledger_entries, classify, stale_reads
 from .common import entry, msg_enum, variant_env, stored, where, arm_handler
@@ -232,6 +232,13 @@ def run(prog, world, sem, rep):
             reach = be.cfg.reach([0], removed=pe)
             oks = [bb for (bb, idx, kind, x) in sem.ret_sites(be) if kind == "ok"]
             if oks and pe and not any(b in reach for b in oks):
+                exp_ok = True
+        if not exp_ok:
+            # load + modify + save form: the save itself lies behind is_expired == false
+            def not_expired(f, resolve):
+                return f[0] == "truth" and f[2] is False and f[1].op == "call" and f[1].info.endswith("Expiration::is_expired")
+            saves = [x for x in deff if x[2] == "write"]
+            if saves and all(site_guarded(sem, x[0], x[1], not_expired)[0] for x in saves):
                 exp_ok = True
         rep.ob("C18.d", "deduct_allowance fails on an expired allowance", exp_ok,
                "Ok result only behind is_expired == false" if exp_ok else "the allowance update can succeed without checking expiry", where(da_body))
